@@ -74,6 +74,11 @@ func VerifC07Failover() {
 	vController = s
 	s.getRaft().leader = 1 // this server is the controller
 	s.config.Clustering.ReplicaMaxLeaderTimeout = 10 * time.Second
+	// every other duration of the clustering configuration is much longer, so a
+	// window built from the wrong setting does not expire when this one does
+	s.config.Clustering.ReplicaMaxLagTime = time.Hour
+	s.config.Clustering.ReplicaMaxIdleWait = time.Hour
+	s.config.Clustering.ReplicaFetchTimeout = time.Hour
 	vRaftIndex = 0
 	reps := []string{"r1", "r2", "r3"}
 	// create the stream through the sequencer
